@@ -4,6 +4,7 @@ import YncaVerif.Model.Subunit
 import YncaVerif.Model.Framing
 import YncaVerif.Model.Accept
 import YncaVerif.Model.ConnCheck
+import YncaVerif.Model.Api
 import YncaVerif.Model.Server
 import YncaVerif.Model.Dialogue
 import YncaVerif.Gen.ServerTables
@@ -91,6 +92,8 @@ structure DState where
   /-- L5c run check: time-out parameter and state of the connection_check model; `none` once a label was not enabled -/
   ccT : Nat := 1500000
   cc : Option CC.St := some {}
+  /-- L7 run check: state of the `YncaApi` program model; `none` once a label was not enabled -/
+  api : Option L7.A := some {}
 
 def noExotic : Exotic := fun _ _ => none
 
@@ -194,6 +197,50 @@ def stepState (mode : String) (d : DState) (line : String) : DState × String :=
         match CC.step d.ccT st lab with
         | some st' => ({ d with cc := some st' }, "ok")
         | none => ({ d with cc := none }, "DISABLED " ++ op)
+  | "api", ["reset"] => ({ d with api := some {} }, "ok")
+  | "api", ["keys"] =>
+    match d.api with
+    | none => (d, "dead")
+    | some a => (d, "keys" ++ "".intercalate (a.subunits.map (fun z => " " ++ Hex.hexOfStr z)))
+  | "api", ["phase"] =>
+    match d.api with
+    | none => (d, "dead")
+    | some a =>
+      (d, match a.phase with
+          | .fresh => "fresh" | .enqueueing => "enqueueing" | .detecting _ => "detecting" | .building _ => "building"
+          | .ready => "ready" | .failed => "failed" | .closed => "closed")
+  | "api", ["next"] =>
+    -- the id of the object the model is about to construct
+    match d.api with
+    | none => (d, "dead")
+    | some a => (d, match a.phase with | .building (i :: _) => "next " ++ Hex.hexOfStr i | _ => "next-none")
+  | "api", op :: args =>
+    match d.api with
+    | none => (d, "dead")
+    | some a =>
+      let lab : Option L7.Label :=
+        match op, args with
+        | "start", [] => some .start
+        | "connectFails", [] => some .connectFails
+        | "wait", [n] => n.toNat?.map L7.Label.wait
+        | "msg", [st, su, fn, v] =>
+          match statusOfTok st, optOfTok su, optOfTok fn, optOfTok v with
+          | some st, some su, some fn, some v => some (.msg ⟨st, su, fn, v⟩)
+          | _, _, _, _ => none
+        | "wake", [] => some .wake
+        | "timeout", [] => some .timeout
+        | "subunitOk", [] => some .subunitOk
+        | "subunitFails", [] => some .subunitFails
+        | "close", [] => some .close
+        | "tick", [n] => n.toNat?.map L7.Label.tick
+        | _, _ => none
+      match lab with
+      | none => (d, "bad-op")
+      | some lab =>
+        let P : L7.Params := { classIds := Gen.classes.map (·.id), perCmdUs := 5 * Gen.spacingUs }
+        match L7.step P a lab with
+        | some a' => ({ d with api := some a' }, "ok")
+        | none => ({ d with api := none }, "DISABLED " ++ op)
   | "dialogue", "answer" :: cmd :: lines =>
     match Hex.strOfHex cmd, lines.mapM Hex.strOfHex with
     | some c, some ls => ({ d with answers := (c, ls) :: d.answers.filter (·.1 != c) }, "ok")
